@@ -151,7 +151,7 @@ func faults(r *ev.Run) {
 	}
 	npil := r.Pick(5, 25)
 	idx := 0
-	kinds := []int{wire.Failure, wire.Garbage, wire.WrongType, wire.Oversized, wire.Truncated, wire.Close}
+	kinds := []int{wire.Failure, wire.Garbage, wire.WrongType, wire.Oversized, wire.Oversized2G, wire.Oversized4G, wire.Truncated, wire.Close}
 	for pi := 0; pi < npil; pi++ {
 		pc := r.CaseAlways("pilot", pi)
 		p := mkPilot(pc, pi)
@@ -310,7 +310,7 @@ func construction(r *ev.Run) {
 	if !r.Want("construct") {
 		return
 	}
-	kinds := []int{wire.Close, wire.Failure, wire.Garbage, wire.WrongType, wire.Oversized, wire.Truncated}
+	kinds := []int{wire.Close, wire.Failure, wire.Garbage, wire.WrongType, wire.Oversized, wire.Oversized2G, wire.Oversized4G, wire.Truncated}
 	idx := 0
 	for _, noUp := range []bool{false, true} {
 		for _, kind := range kinds {
